@@ -15,7 +15,7 @@ from fractions import Fraction
 from .. import common, tlc, project, build
 from ..common import Result, Violation
 
-BIG = [2 ** 31, 2 ** 32 + 1, 2 ** 62, 2 ** 63 - 1, 2 ** 63, 2 ** 64 + 7, 10 ** 20, -(2 ** 62), -(2 ** 63) - 1]
+BIG = [-(2 ** 63), 2 ** 31, 2 ** 32 + 1, 2 ** 62, 2 ** 63 - 1, 2 ** 63, 2 ** 64 + 7, 10 ** 20, -(2 ** 62), -(2 ** 63) - 1]
 SMALL = [0, 1, -1, 2, 3, 7, 10, -3]
 DEC = [0.5, 2.5, -0.25]
 EXPS = [0, 1, 2, 3, 5, 31, 41, 63, 64, 70, -1, -2]
@@ -86,9 +86,44 @@ def enc_ctx(ctx, names):
     return out
 
 
+def edited_term(term, edit):
+    """the abstract term after the in-place edit"""
+    kind, path, val = edit
+
+    def go(t, p):
+        if not p:
+            if kind == "const":
+                return ("c", val)
+            return (t[0], t[1], ("c", val))          # relink: replace the right operand by a new constant
+        i = p[0] + 1
+        return tuple(go(x, p[1:]) if j == i else x for j, x in enumerate(t))
+    return go(term, path)
+
+
+def apply_edit(tree, edit):
+    from mathy_core.expressions import ConstantExpression
+    kind, path, val = edit
+    n = tree
+    for step in path:
+        n = n.left if step == 0 else n.right
+    if kind == "const":
+        n.value = val
+    else:
+        n.set_right(ConstantExpression(val))
+
+
 def observe(case):
     term, ctx = case["term"], case["ctx"]
     tree = build.build(term)
+    if case.get("edit"):
+        try:
+            import warnings
+            with warnings.catch_warnings():
+                warnings.simplefilter("ignore")
+                tree.evaluate(dict(ctx) if ctx is not None else None)
+        except BaseException:  # noqa
+            pass
+        apply_edit(tree, case["edit"])
     try:
         import warnings
         with warnings.catch_warnings():
@@ -122,7 +157,8 @@ def observe(case):
 
 def make_event(case):
     names = sorted({n for n in "xyz"})
-    return {"term": enc_term(case["term"]), "ctx": enc_ctx(case["ctx"] or {}, names), "obs": observe(case)}
+    term = edited_term(case["term"], case["edit"]) if case.get("edit") else case["term"]
+    return {"term": enc_term(term), "ctx": enc_ctx(case["ctx"] or {}, names), "obs": observe(case)}
 
 
 def C(v): return ("c", v)
@@ -199,9 +235,29 @@ def domain(ctx):
         cases.append({"term": ("eq", C(a), C(b)), "ctx": {}})
         cases.append({"term": ("eq", ("add", V("x"), C(1)), ("add", C(1), V("y"))), "ctx": {"x": a, "y": b}})
         cases.append({"term": ("eq", ("eq", C(a), V("x")), C(b)), "ctx": {"x": a}})
+    # sides that differ by one unit at large magnitude must still be reported as unequal
+    for a in (2 ** 31, 10 ** 9, 5 * 10 ** 11, 2 ** 53, 2 ** 62, 2 ** 64 + 7, 10 ** 20):
+        for d in (1, -1, 2):
+            cases.append({"term": ("eq", C(a), C(a + d)), "ctx": {}})
+            cases.append({"term": ("eq", ("add", ("mul", C(2), V("x")), C(d)), V("y")), "ctx": {"x": a, "y": 2 * a}})
+            cases.append({"term": ("eq", V("x"), ("add", V("y"), C(d))), "ctx": {"x": a, "y": a}})
+            cases.append({"term": ("eq", ("mul", V("x"), V("x")), ("add", ("mul", V("y"), V("y")), C(d))), "ctx": {"x": a, "y": a}})
+    # evaluate, edit the tree in place (a constant's value / a re-linked operand), evaluate again: the second result
+    # is judged against the edited tree
+    edits = []
+    for a, b, c in [(2, 3, 4), (2 ** 62, 2 ** 62, 5), (7, 0, 1), (10 ** 20, 1, 2)]:
+        for o1, o2 in (("add", "mul"), ("mul", "add"), ("sub", "mul"), ("mul", "pow")):
+            if o2 == "pow" and (abs(b) > 100 or abs(c) > 70):
+                continue
+            edits.append({"term": (o1, (o2, C(a), C(b)), V("x")), "ctx": {"x": c}, "edit": ["const", [0, 1], b + 2]})
+            edits.append({"term": (o1, (o2, C(a), C(b)), V("x")), "ctx": {"x": c}, "edit": ["const", [0, 0], a + 1]})
+            edits.append({"term": (o1, V("x"), (o2, (o1, C(a), C(b)), C(c))), "ctx": {"x": c}, "edit": ["const", [1, 0, 1], b + 5]})
+            edits.append({"term": (o1, (o2, C(a), C(b)), V("x")), "ctx": {"x": c}, "edit": ["relink", [0], c]})
+    cases += edits
     rule = ("integer trees over %d operands incl. 2^31..10^20 as literals and bindings through + - * (all pairs, sampled triples in both groupings); powers base x exponent over %s; "
             "factorials of %s; neg/abs/sgn; division and decimals over %d small operands incl. zero divisors and NaN propagation (also behind a zero factor); "
-            "13 shapes x 9 contexts with absent / None / zero bindings; equations equal / unequal / nested" % (len(ints), EXPS, FACTS, len(smalls)))
+            "13 shapes x 9 contexts with absent / None / zero bindings; equations equal / unequal / nested / differing by one unit at magnitudes up to 10^20; "
+            "evaluate - edit in place - evaluate again sequences" % (len(ints), EXPS, FACTS, len(smalls)))
     return cases, rule
 
 
@@ -220,7 +276,7 @@ def sig(case, cl):
         return "%s(%s,%s)" % (k, shape(t[1]), shape(t[2]))
     c = case["ctx"]
     cs = "noctx" if c is None else ",".join("%s=%s" % (n, "None" if v is None else ("dec" if isinstance(v, float) else "0" if v == 0 else "big" if abs(v) >= 2 ** 31 else "n")) for n, v in sorted(c.items()))
-    return "C05|%s|%s|%s" % (",".join(cl), shape(case["term"]), cs)
+    return "C05|%s|%s|%s%s" % (",".join(cl), shape(case["term"]), cs, "|after-edit" if case.get("edit") else "")
 
 
 def run(ctx, cases=None):
@@ -228,7 +284,7 @@ def run(ctx, cases=None):
     if cases is None:
         cases, res.rule = domain(ctx)
     else:
-        cases = [{"term": tuplify(c["term"]), "ctx": c["ctx"]} for c in cases]
+        cases = [dict(c, term=tuplify(c["term"])) for c in cases]
         res.rule = "replay"
     from multiprocessing import Pool
     with Pool(16) as pool:
@@ -242,7 +298,7 @@ def run(ctx, cases=None):
         for c in cl:
             if c.startswith("note_"):
                 notes[c] = notes.get(c, 0) + 1
-    res.distinct_nontrivial = len({repr((c["term"], c["ctx"])) for c in cases}) - notes.get("note_not_judged", 0)
+    res.distinct_nontrivial = len({repr((c["term"], c["ctx"], c.get("edit"))) for c in cases}) - notes.get("note_not_judged", 0)
     res.rule += " | non-trivial = distinct (tree, context) cases that the specification judges (not skipped as inexact)"
     res.extra.update({"validator": st, "not_judged_or_noted": notes, "observed_kinds": {k: sum(1 for e in events if e["obs"]["t"] == k) for k in ("int", "float", "nan", "inf", "exc")}})
     res.samples = [{"term": cases[k]["term"], "ctx": cases[k]["ctx"], "observed": events[k]["obs"]} for k in (len(cases) // 7, len(cases) // 2)]
